@@ -74,6 +74,52 @@ class _SilentLogger:
 SILENT = _SilentLogger()
 
 
+class FastJson:
+    """json stand-in for whole-run harnesses: identical results, but the codec runs
+    natively outside CrossHair's tracer (its pure-Python JSON model costs ~0.5 s per
+    engine step).  Arguments are realised first, exactly what CrossHair does for any
+    C-level sink, so soundness is unaffected."""
+    import json as _json
+    __name__ = "json"
+    JSONDecodeError = _json.JSONDecodeError
+
+    @staticmethod
+    def _ctx():
+        try:
+            from crosshair.tracers import NoTracing, is_tracing
+            if is_tracing():
+                return NoTracing(), True
+        except Exception:
+            pass
+        return None, False
+
+    @classmethod
+    def dumps(cls, obj, *a, **k):
+        ctx, tracing = cls._ctx()
+        if not tracing:
+            return cls._json.dumps(obj, *a, **k)
+        from crosshair.core import deep_realize
+        obj = deep_realize(obj)
+        with ctx:
+            return cls._json.dumps(obj, *a, **k)
+
+    @classmethod
+    def loads(cls, s, *a, **k):
+        ctx, tracing = cls._ctx()
+        if not tracing:
+            return cls._json.loads(s, *a, **k)
+        from crosshair.core import deep_realize
+        s = deep_realize(s)
+        with ctx:
+            return cls._json.loads(s, *a, **k)
+
+
+def install_fast_json(*modules):
+    for m in modules:
+        if hasattr(m, "json"):
+            m.json = FastJson
+
+
 def install_env(*modules):
     """Plant clock / uuid / logger stubs in the given imported repository modules."""
     for m in modules:
